@@ -5,6 +5,13 @@
 //! then X finishes - for every k and both orders ("creator paused after each step while an opener
 //! runs to completion, and the converse").  The recorded call/ret history (totally ordered by the
 //! scheduler) is validated by ServiceAbsTrace.tla like the free-running histories.
+//!
+//! Only atomics in mmap-ed memory (the shared-memory registry, heap objects of the worker threads)
+//! are yield points; process-global statics are not.  The code under test also takes REAL process-
+//! global mutexes (e.g. the process-state tracker): a thread paused at a yield point inside such a
+//! critical section blocks its peer in the kernel, invisibly for the scheduler.  A watchdog thread
+//! detects the stalled execution, reports where to resume (`{"hung_at": ...}`) and exits with
+//! status 3; the check restarts the enumeration behind that schedule (`--resume`, a new output part).
 
 use crate::cfgs::cfg_set;
 use crate::ops::{Actor, Op, SLOTS, do_op, observe, write_events};
@@ -71,6 +78,27 @@ const SCENARIOS: &[Scenario] = &[
 pub fn run<P: Pat>(args: &Args) -> Value {
     let root = args.get("root").expect("--root");
     let timeout = args.num("timeout", 30);          // short: a paused peer is waited for in vain
+    // resume point "scenario-index,first,k" (exclusive: the enumeration continues behind it)
+    let resume: Option<(usize, usize, usize)> = args.get("resume").map(|r| {
+        let v: Vec<usize> = r.split(',').map(|x| x.parse().expect("--resume")).collect();
+        (v[0], v[1], v[2])
+    });
+    let stall_secs = args.num("stall-secs", 60);
+    let progress = Arc::new(Mutex::new((std::time::Instant::now(), String::new(), false)));
+    {
+        let progress = progress.clone();
+        std::thread::spawn(move || loop {
+            std::thread::sleep(std::time::Duration::from_millis(500));
+            let p = progress.lock().unwrap();
+            if p.2 {
+                return;
+            }
+            if !p.1.is_empty() && p.0.elapsed().as_secs() >= stall_secs {
+                println!("{{\"hung_at\":\"{}\"}}", p.1);
+                std::process::exit(3);
+            }
+        });
+    }
     let stride = args.num("stride", 1) as usize;
     let max_k = args.num("maxk", 100_000) as usize;
     let tag = util::run_token(args);
@@ -97,7 +125,16 @@ pub fn run<P: Pat>(args: &Args) -> Value {
         }
         for first in 0..2usize {
             let mut k = 0usize;
+            if let Some((rs, rf, rk)) = resume {
+                if (si, first) < (rs, rf) {
+                    continue;
+                }
+                if (si, first) == (rs, rf) {
+                    k = rk + stride;
+                }
+            }
             loop {
+                *progress.lock().unwrap() = (std::time::Instant::now(), format!("{si},{first},{k}"), false);
                 let config = util::make_config(
                     &format!("{root}/x{}{tag}_{si}", P::NAME),
                     &format!("c6{tag}x{}{si}_", P::NAME),
@@ -155,7 +192,13 @@ pub fn run<P: Pat>(args: &Args) -> Value {
                     }));
                 }
                 let mut strat = PauseAt { first, k, taken: 0, switched: false, first_done_before_k: false };
-                let cfg = RunConfig { ranges: vec![], max_steps: 200_000, record_atoms: false, ..Default::default() };
+                // yield points: atomics in mmap-ed memory only (x86-64 Linux user space above 0x7000_0000_0000)
+                let cfg = RunConfig {
+                    ranges: vec![(0x7000_0000_0000, 0x0fff_ffff_ffff)],
+                    max_steps: 200_000,
+                    record_atoms: false,
+                    ..Default::default()
+                };
                 let res = sched::run(cfg, bodies, &mut strat);
                 executions += 1;
                 let nsteps = res.schedule.len();
@@ -189,6 +232,7 @@ pub fn run<P: Pat>(args: &Args) -> Value {
                 }
                 evs.push((sh.stamp(), observe::<P>("end", &name, &config, false, panics)));
                 write_events(&mut out, evs);
+                out.flush();
                 util::cleanup_domain(&config);
                 if k == 0 {
                     steps_seen.push(json!({"scenario": sc.name, "first": first, "steps": nsteps}));
@@ -201,6 +245,7 @@ pub fn run<P: Pat>(args: &Args) -> Value {
         }
     }
     out.flush();
+    progress.lock().unwrap().2 = true;
     json!({"mode":"sched","pat":P::NAME,"executions":executions,"anomalies":anomalies,"calls":calls,
            "lines":out.lines,"results":counts,"steps":steps_seen})
 }
